@@ -51,10 +51,10 @@ def dense_stacks(rng, n):
     return out
 
 
-def generate(seed, tier):
+def generate(seed, tier, rnd=0):
     rng = Rng(seed + 19)
     n = {"quick": 4, "thorough": 5, "search": 5}[tier]
-    out = ic.exhaustive(ID, n, True, with_clear=True)
+    out = ic.exhaustive(ID, n, True, with_clear=True) if rnd == 0 else []
     out += ic.random_seqs(ID, rng, {"quick": 300, "thorough": 3000, "search": 1500}[tier], {"quick": 40, "thorough": 400, "search": 60}[tier], True)
     out += dense_stacks(rng, {"quick": 60, "thorough": 600, "search": 200}[tier])
     return out
